@@ -1,0 +1,58 @@
+//go:build verif
+
+// Contracts for package header, checked by /verif/govc (see /verif/DESIGN.md).
+// This file contains only comments; it is compiled only with -tags verif and
+// has no effect on the package.
+
+package header
+
+// HeaderWF: the shape invariant every decoded header satisfies; the decoders of
+// the satellite and signal cells index by it.
+//@ define HeaderWF(h) = len(h.Cells) == len(h.Satellites) && forall(i, 0, len(h.Cells), len(h.Cells[i]) == len(h.Signals)) && len(h.Satellites) <= 64 && len(h.Signals) <= 32
+
+//@ func getSatellites
+//@ ensures fresh(result) && len(result) <= 64
+//@ ensures[C04] len(result) == cnthi(satelliteMask, 64, 64)
+//@ ensures[C04] forall(j, 0, len(result), 1 <= result[j] && result[j] <= 64 && bitof(satelliteMask, 64 - result[j]) == 1)
+//@ ensures[C04] forall(j, 0, len(result) - 1, result[j] < result[j+1])
+//@ ensures[C04b] forall(s, 1, 65, bitof(satelliteMask, 64 - s) == 1 ==> cnthi(satelliteMask, 64, s-1) < len(result) && result[cnthi(satelliteMask, 64, s-1)] == s)
+//@ loop 1
+//@ invariant[C04b] forall(s, 1, satNum, bitof(satelliteMask, 64 - s) == 1 ==> cnthi(satelliteMask, 64, s-1) < len(satellites) && satellites[cnthi(satelliteMask, 64, s-1)] == s)
+//@ invariant 1 <= satNum && satNum <= 65 && len(satellites) <= satNum - 1 && fresh(satellites)
+//@ invariant[C04] len(satellites) == cnthi(satelliteMask, 64, satNum - 1)
+//@ invariant[C04] forall(j, 0, len(satellites), 1 <= satellites[j] && satellites[j] < satNum && bitof(satelliteMask, 64 - satellites[j]) == 1)
+//@ invariant[C04] forall(j, 0, len(satellites) - 1, satellites[j] < satellites[j+1])
+//@ decreases 65 - satNum
+
+//@ func getSignals
+//@ ensures fresh(result) && len(result) <= 32
+//@ ensures[C04] len(result) == cnthi(signalMask, 32, 32)
+//@ ensures[C04] forall(j, 0, len(result), 1 <= result[j] && result[j] <= 32 && bitof(signalMask, 32 - result[j]) == 1)
+//@ ensures[C04] forall(j, 0, len(result) - 1, result[j] < result[j+1])
+//@ loop 1
+//@ invariant 1 <= sigNum && sigNum <= 33 && len(signals) <= sigNum - 1 && fresh(signals)
+//@ invariant[C04] len(signals) == cnthi(signalMask, 32, sigNum - 1)
+//@ invariant[C04] forall(j, 0, len(signals), 1 <= signals[j] && signals[j] < sigNum && bitof(signalMask, 32 - signals[j]) == 1)
+//@ invariant[C04] forall(j, 0, len(signals) - 1, signals[j] < signals[j+1])
+//@ decreases 33 - sigNum
+
+//@ func getCells
+//@ requires 0 <= numberOfSatellites && numberOfSatellites <= 64 && 0 <= numberOfSignalTypes && numberOfSignalTypes <= 32
+//@ let total = numberOfSatellites*numberOfSignalTypes
+//@ ensures fresh(result) && len(result) == numberOfSatellites
+//@ ensures forall(k, 0, len(result), len(result[k]) == numberOfSignalTypes)
+//@ ensures[C04] forall(k, 0, len(result), RowOK(contents(result[k]), offof(result[k]), cellMask, total - 1 - k*numberOfSignalTypes, numberOfSignalTypes))
+//@ loop 1
+//@ invariant 0 <= i && i <= numberOfSatellites && len(cells) == i && fresh(cells)
+//@ invariant forall(k, 0, i, len(cells[k]) == numberOfSignalTypes)
+//@ invariant cellNumber == i*numberOfSignalTypes && shift == total - 1 - i*numberOfSignalTypes
+//@ invariant[C04] forall(k, 0, i, fresh(cells[k]) && allocated(cells[k]))
+//@ invariant[C04] forall(k, 0, i, RowOK(contents(cells[k]), offof(cells[k]), cellMask, total - 1 - k*numberOfSignalTypes, numberOfSignalTypes))
+//@ decreases numberOfSatellites - i
+//@ loop 2
+//@ invariant 0 <= j && j <= numberOfSignalTypes && len(row) == j && fresh(row) && allocated(row) && i < numberOfSatellites
+//@ invariant cellNumber == i*numberOfSignalTypes + j && shift == total - 1 - (i*numberOfSignalTypes + j)
+//@ invariant[C04] forall(k, 0, i, fresh(cells[k]) && arrof(cells[k]) < arrof(row))
+//@ invariant[C04] forall(k, 0, i, RowOK(contents(cells[k]), offof(cells[k]), cellMask, total - 1 - k*numberOfSignalTypes, numberOfSignalTypes))
+//@ invariant[C04] RowOK(contents(row), offof(row), cellMask, total - 1 - i*numberOfSignalTypes, j)
+//@ decreases numberOfSignalTypes - j
